@@ -495,6 +495,8 @@ where
       || self.time_to_idle.is_some()
       || self.capacity != u64::MAX
       || has_custom_policy;
+    #[cfg(excsn_fibre_verif)]
+    let needs_janitor = needs_janitor && crate::verif::background_threads();
     let (janitor, maintenance_signal) = if needs_janitor {
       let tick_interval = self.janitor_tick_interval.unwrap_or(Duration::from_secs(1));
       let (signal_tx, signal_rx) = std::sync::mpsc::sync_channel(self.shards.max(16));
